@@ -31,6 +31,10 @@ func c05Value(r *Rand, t TypeSpec, tag string) string {
 	case t.W == WMap:
 		return fmt.Sprintf("k%d:%s", r.Intn(3), c05Value(r, TypeSpec{K: t.K}, tag))
 	case t.K == KString:
+		if tag == "env" && r.Chance(1, 3) {
+			// (a value that itself contains '=': a DSN, base64 padding, a key=value list)
+			return fmt.Sprintf("%s=%d=x", tag, r.Intn(1000))
+		}
 		return fmt.Sprintf("%s%d", tag, r.Intn(1000))
 	case t.K == KBool:
 		return "true"
